@@ -77,12 +77,16 @@ func (r *ServiceReconciler) reprocessAll(ctx context.Context, req ctrl.Request) 
 
 	retry := false
 	for _, service := range sortedServices {
+		serviceName := types.NamespacedName{Namespace: service.Namespace, Name: service.Name}
+
 		if filterByLoadBalancerClass(&service, r.LoadBalancerClass) {
 			level.Debug(r.Logger).Log("controller", "ServiceReconciler", "filtered service", req.NamespacedName)
+			// not ours (any more): release whatever is held under its name
+			if res := r.Handler(r.Logger, serviceName.String(), nil, nil); res == SyncStateError || res == SyncStateReprocessAll {
+				retry = true
+			}
 			continue
 		}
-
-		serviceName := types.NamespacedName{Namespace: service.Namespace, Name: service.Name}
 
 		eps := []discovery.EndpointSlice{}
 		if r.Endpoints {
